@@ -112,6 +112,16 @@ class World:
                 cbs.append(self._guard(self.p.connection_lost, None))
             elif pr == "E":
                 cbs.append(self._guard(self.p.eof_received))
+            elif pr == "P":
+                # the host has a DATA frame in flight (written, not yet acknowledged) - its sender is a separate task
+                async def _send():
+                    try:
+                        await self.p.send_data(b"\x55\xaa")
+                        self.log.append("PD:ok")
+                    except BaseException as e:  # noqa: BLE001
+                        self.log.append("PD:" + type(e).__name__)
+
+                cbs.append((lambda: self.tasks.__setitem__("P", self.loop.create_task(_send())),))
             elif pr == "T":
                 timer = True
             elif pr.startswith("W="):
@@ -186,6 +196,7 @@ def oracle(w):
         for e in entries:
             if e.startswith("!") or ":!" in e:
                 return f"unexpected exception {e} in batch {batch}"
+        entries = [e for e in entries if not e.startswith("PD:") and not (e.startswith("W") and "P" in prims)]
         for c in now_resets:
             if not waiting and "L1" not in prims and "L0" not in prims and not lost:
                 if "W" + RST_WIRE not in entries:
@@ -254,6 +265,13 @@ def cases(ctx):
                 if i > 0:
                     cs.append((2, 6, b[: i - 1] + [b[i - 1] + "+" + loss] + b[i:]))
                     cs.append((2, 6, b[: i - 1] + [loss + "+" + b[i - 1]] + b[i:]))
+    # a DATA frame of the host is in flight when the connection is lost during a reset / start-up wait: the waiters are released
+    # all the same (oracle only)
+    for loss in ("L0", "L1", "E"):
+        for waiter in (["R=1"], ["S=1"], ["S=1", "R=2"]):
+            cs.append((0, 0, ["P"] + waiter + [loss]))
+            cs.append((4, 3, waiter + ["P", loss]))
+            cs.append((0, 0, ["P"] + waiter[:-1] + [waiter[-1], "F=A:0:0:0+" + loss]))
     # the reset timeout runs from the request, whatever arrives meanwhile (frames of the old session, acknowledgements, failures)
     for mids in itertools.product(["F=D:0:0:0:aa", "F=A:0:0:1", "F=K:2:2", "F=E:2:81", "F=N:0:0:0"], repeat=2):
         for w1, w2 in ((700, 1900), (2500, 2400), (4100, 300)):
@@ -297,7 +315,7 @@ def run(ctx):
         if bad:
             ise = "InvalidStateError" in bad
             ctx.violation(bad, {"kind": "connection-lost-invalid-state" if ise else "reset"}, {"tx": tx, "rx": rx, "batches": [b for b, _, _ in w.events]})
-        if model is not None and w.events and not any(p.startswith("W=") for b in bs for p in b.split("+")):
+        if model is not None and w.events and not any(p.startswith("W=") or p == "P" for b in bs for p in b.split("+")):
             ms = model[i].split("|")
             for (b, en, st), m in zip(w.events, ms):
                 mo, mst = m.split(";")
